@@ -143,6 +143,14 @@ func c14Constructors(c *fw.Case) {
 		ids = append(ids, id)
 	}
 	freeOps, _ := gen.RandValidJSONPatch(r, map[string]interface{}{"foo": map[string]interface{}{"a": 1}, "arr": []interface{}{1, 2}}, 3, true)
+	if r.Chance(1, 3) {
+		// relocations between members whose names (or indices) share a prefix are ordinary moves, not moves into a child
+		freeOps = append(freeOps, fw.Pick(r, [][]interface{}{
+			{map[string]interface{}{"op": "add", "path": "/email", "value": "a@b"}, map[string]interface{}{"op": "move", "from": "/email", "path": "/emailBackup"}},
+			{map[string]interface{}{"op": "add", "path": "/tags", "value": []interface{}{0, 1, 2, 3, 4, 5, 6, 7, 8, 9, 10, 11}}, map[string]interface{}{"op": "move", "from": "/tags/1", "path": "/tags/10"}},
+			{map[string]interface{}{"op": "add", "path": "/a", "value": map[string]interface{}{"b": 1}}, map[string]interface{}{"op": "copy", "from": "/a", "path": "/ab"}, map[string]interface{}{"op": "move", "from": "/a/b", "path": "/a/bc"}},
+		})...)
+	}
 	js := func(v interface{}) string {
 		return string(gen.Spell(r, oracle.MustGeneric(v), gen.SpellOpts{Whitespace: true, Shuffle: true}))
 	}
